@@ -509,7 +509,7 @@ fn run(ctx: &Ctx) -> ShardOut {
     // double mutations of the shortest seeds
     let mut shortest: Vec<&String> = seeds.iter().collect();
     shortest.sort_by_key(|s| s.len());
-    let nshort = if ctx.thorough() { 8 } else { 2 };
+    let nshort = if ctx.thorough() { 24 } else { 2 };
     'dm: for seed in shortest.into_iter().filter(|s| s.len() > 10).take(nshort) {
         let mut first = Vec::new();
         mutations(seed, &mut |m| first.push(m));
